@@ -139,3 +139,13 @@ Definition jv_list_eqb (a b : list (string * jv)) : bool :=
      | (k, x) :: a', (k', y) :: b' => String.eqb k k' && same_vt x y && go a' b'
      | _, _ => false
      end) a b.
+
+(* ---- extension: json_to_data(custom_objects=...): an attribute named in custom_objects is not decoded, the given
+   object is used instead ---- *)
+Fixpoint lookup_custom (k : string) (c : list (string * jv)) : option jv :=
+  match c with
+  | [] => None
+  | (k', v) :: r => if String.eqb k k' then Some v else lookup_custom k r
+  end.
+Definition json_to_data_custom (j : list (string * stored)) (custom : list (string * jv)) : list (string * jv) :=
+  map (fun kv => (fst kv, match lookup_custom (fst kv) custom with Some v => v | None => load_item (snd kv) end)) j.
